@@ -79,28 +79,33 @@ def _alarm(signum, frame):
     raise _CaseHang()
 
 
-def _execute_watched(sub, case, env):
-    """sub.execute under a watchdog.  A case normally takes milliseconds to a few seconds; one that is still running after
-    case_timeout_s / 3 (default 20 s) is interrupted and run ONCE more with the full time (60 s); if it does not finish then
-    either, the library call is reported as not returning (<pid>/no-progress/...).  A single slow run is never reported."""
-    limit = getattr(sub, 'case_timeout_s', 60)
+def watched(call, limit, pid, label):
+    """call() under a watchdog.  A run normally takes milliseconds to a few seconds; one that is still running after limit / 3
+    is interrupted and run ONCE more with the full limit; if it does not finish then either, the library call is reported as
+    not returning (<pid>/no-progress/<label>).  A single slow run is never reported.  Main thread only (SIGALRM)."""
     if not limit or threading.current_thread() is not threading.main_thread():
-        return sub.execute(case, env)
+        return call()
     for attempt in (1, 2):
         old = signal.signal(signal.SIGALRM, _alarm)
         signal.setitimer(signal.ITIMER_REAL, limit / 3.0 if attempt == 1 else limit)
         try:
-            return sub.execute(case, env)
+            return call()
         except _CaseHang:
             if attempt == 2:
-                pid = sub.__class__.__module__.rsplit('.', 1)[-1].upper()
                 raise Violation(
-                    '%s/no-progress/%s' % (pid, sub.name),
-                    'the case was still running after %d s and, run again, after %d s (such cases take well under a second): a call does not return' % (limit / 3, limit),
+                    '%s/no-progress/%s' % (pid, label),
+                    'the run was still going after %d s and, run again, after %d s (such runs take well under a second): a call does not return' % (limit / 3, limit),
                 )
         finally:
             signal.setitimer(signal.ITIMER_REAL, 0)
             signal.signal(signal.SIGALRM, old)
+
+
+def _execute_watched(sub, case, env):
+    """sub.execute under the watchdog (default 60 s; sub-checks whose case is a whole batch of runs set case_timeout_s = None
+    and watch their single runs themselves)."""
+    pid = sub.__class__.__module__.rsplit('.', 1)[-1].upper()
+    return watched(lambda: sub.execute(case, env), getattr(sub, 'case_timeout_s', 60), pid, sub.name)
 
 
 class _Collector:
